@@ -24,7 +24,8 @@ func (d *Comma) Evaluation(
 ) (err error) {
 
 	var tArray []*base.T
-	tArray = append(tArray, p.GetLastEvaluatedTPointer().(*base.T))
+	firstT, _ := p.GetLastEvaluatedTPointer().(*base.T)
+	tArray = append(tArray, firstT)
 
 	for {
 		nextT, err := p.Read()
@@ -53,7 +54,8 @@ func (d *Comma) Evaluation(
 			return err
 		}
 
-		tArray = append(tArray, p.GetLastEvaluatedTPointer().(*base.T))
+		evaluatedT, _ := p.GetLastEvaluatedTPointer().(*base.T)
+		tArray = append(tArray, evaluatedT)
 
 		nextT, err = p.Read()
 		if err != nil {
